@@ -24,7 +24,7 @@ PROPS = {
                 trusted=["OS scheduling and real time are not modelled"]),
     "C04": dict(module="MRB.Props.C04", level="proof", profiles=[prof("order", 500, exhaustive=5)], engines=["conc"],
                 gen_items=["advanceLocal", "advance", "check", "prodAvail", "workAvail", "consAvail", "wiring", "skeletons"], trusted=SEQ_TRUST),
-    "C05": dict(module="MRB.Props.C05", level="proof", profiles=[prof("avail", 500, exhaustive=5), prof("reset", 150, 1500), prof("construct", 150, 1500)],
+    "C05": dict(module="MRB.Props.C05", level="proof", search=[("conc", ["C05"])], profiles=[prof("avail", 500, exhaustive=5), prof("reset", 150, 1500), prof("construct", 150, 1500)],
                 gen_items=["check", "prodAvail", "workAvail", "consAvail", "sliceAvail", "sliceMultipleOf", "skeletons"], trusted=SEQ_TRUST),
     "C06": dict(module="MRB.Props.C06", level="proof", profiles=[prof("fifo", 500, exhaustive=5)],
                 gen_items=["nextChunk", "nextChunkMut", "advanceLocal"], trusted=SEQ_TRUST),
@@ -51,7 +51,8 @@ PROPS = {
                 trusted=["rustc's trait solver is the ground truth for Send/Sync; the auto-trait rule is modelled over the finite universe wrapper x role x buffer kind x (item Send?, item Sync?)"],
                 explanation="decide over the whole finite universe from the regenerated impl table + rustc probes"),
     "C17": dict(module="MRB.Props.C17", level="proof", engines=["vmemprobe"],
-                profiles=[prof("vmem", 16, 200, features=["vmem"]), prof("vmemseam", 5, 40, features=["vmem"]), prof("vmemown", 5, 40, features=["vmem"])],
+                profiles=[prof("vmem", 16, 200, features=["vmem"], seeds_thorough=2), prof("vmemseam", 5, 40, features=["vmem"], seeds_thorough=2), prof("vmemown", 5, 40, features=["vmem"], seeds_thorough=2),
+                          prof("async", 8, 60, features=["async", "vmem"], binary="asyncdiff", seeds_thorough=2)],
                 gen_items=["pageSizeMul", "nextChunkVm", "nextChunkMutVm", "vmemCalls"],
                 trusted=["kernel mmap/munmap/sysconf behaviour is assumed", "page size 4096 in the harness"]),
     "C18": dict(module="MRB.Props.C18", level="proof", profiles=[prof("construct", 500)], gen_items=[], trusted=SEQ_TRUST),
